@@ -10,6 +10,7 @@ import (
 	"sort"
 	"strconv"
 	"strings"
+	"sync"
 	"time"
 )
 
@@ -175,9 +176,20 @@ func checkCmd(args []string) int {
 	if !*keep {
 		defer os.RemoveAll(smtDir)
 	}
+	pool := make(chan struct{}, 6)
 	for _, j := range jobs {
-		e.solveObligations(j.obls, j.r.Axioms, j.r.Assumes, filepath.Join(smtDir, sanitize(j.r.Fn)), timeout, 5, needAll)
+		e.renderScripts(j.obls, j.r.Axioms, j.r.Assumes)
 	}
+	var wgAll sync.WaitGroup
+	for _, j := range jobs {
+		j := j
+		wgAll.Add(1)
+		go func() {
+			defer wgAll.Done()
+			e.runScripts(j.obls, filepath.Join(smtDir, sanitize(j.r.Fn)), timeout, pool, needAll)
+		}()
+	}
+	wgAll.Wait()
 	if len(all) == 0 {
 		return fail("no obligations were generated for this property (vacuous check)")
 	}
@@ -202,13 +214,17 @@ func checkCmd(args []string) int {
 	solverSecs := 0.0
 	var knownPrinted []string
 	var violLines []string
+	var coverUndecided []string
 	for _, o := range all {
 		seen[o.ID] = true
 		ok := false
 		if o.Cover {
-			ok = o.Status == "sat" || o.Status == "unknown" || o.Status == "timeout"
-			if o.Status == "unsat" {
-				ok = false
+			// a vacuity guard passes when the path is shown reachable; it fails
+			// when it is shown contradictory; undecided guards are reported in
+			// the evidence (cover_undecided) and do not fail the check
+			ok = o.Status != "unsat"
+			if o.Status != "sat" {
+				coverUndecided = append(coverUndecided, o.ID)
 			}
 		} else {
 			ok = o.Status == "unsat" || o.Status == "static"
@@ -282,7 +298,7 @@ func checkCmd(args []string) int {
 		tb = append(tb, "model:"+mname)
 	}
 	for k := range notes {
-		if strings.HasPrefix(k, "axiom:") || strings.HasPrefix(k, "model:") || strings.HasPrefix(k, "trusted") || strings.HasPrefix(k, "assume") {
+		if strings.HasPrefix(k, "axiom:") || strings.HasPrefix(k, "model:") || strings.HasPrefix(k, "trusted") || strings.HasPrefix(k, "assume") || strings.HasPrefix(k, "append ") {
 			tb = append(tb, k)
 		}
 	}
@@ -295,6 +311,7 @@ func checkCmd(args []string) int {
 		"unmodelled_calls":         unmod,
 		"outside_subset":           outside,
 		"known_findings":           knownPrinted,
+		"cover_undecided":          coverUndecided,
 		"engine_notes":             notes,
 	}
 	writeEvidence(evPath, prop, tier, seed, time.Since(t0).Seconds(), reports, cov, tb, violations, nil, &[2]int{claimed, discharged})
@@ -404,7 +421,14 @@ func (e *Engine) replayObligation(prop string, o *Obligation, why string) (strin
 		"all_solvers":   o.allSolvers,
 	}
 	confirmed := false
-	if o.Status == "sat" && !o.Cover {
+	if !o.Cover && o.clause != nil && o.clause.Label == "loud" {
+		if out, ok, test := e.replayLoud(o); test != "" {
+			payload["replay_test"] = test
+			payload["replay_output"] = truncate(out, 8000)
+			payload["replay_confirmed"] = ok
+			confirmed = ok
+		}
+	} else if o.Status == "sat" && !o.Cover {
 		if out, ok, test := e.tryReplay(o); test != "" {
 			payload["replay_test"] = test
 			payload["replay_output"] = truncate(out, 8000)
